@@ -234,7 +234,8 @@ PROPS = {
                 "Clock actions (bug activity) move a repository's clocks; an edit whose new version would record clocks behind the previous version must be refused (planned in a quarter of the cases).",
         "assumptions": ["avatar URL validity is not asserted (the statement does not list it)"],
         "tests": [{"name": "TestC09Identities", "quick": 120, "shards_quick": 3, "thorough": 600, "shards": 16},
-                  {"name": "TestC09CraftedChains", "quick": 600, "thorough": 3000, "shards": 2}],
+                  {"name": "TestC09CraftedChains", "quick": 600, "thorough": 3000, "shards": 2},
+                  {"name": "TestC09ForeignFormatting", "quick": 300, "thorough": 5000, "shards": 2}],
     },
     "C07": {
         "level": "exploration",
